@@ -6,12 +6,33 @@ def register(R):
              pyclass="rich.console.Console", mutable=True)
     # the visible text of a record: texts of the non-control segments, in order, concatenated
     R.specfn("visible_text", ["segs"], "joined([segment.text for segment in segs if not segment.is_control])")
+    R.ufun("sgr_of", "str")
+    R.contract(
+        "rich.style", "Style._make_ansi_codes", serves=["C15", "C03"],
+        params={"self": "Style", "color_system": "int"}, returns="str", pure=True,
+        ensures=["seq_eq(result, sgr_of(self, color_system))"],
+        trusted="the SGR parameter string of a style is a function of its colours, its effective attribute bits and the colour system "
+                "(sgr_of, uninterpreted): which parameters it contains is covered by Color.get_ansi_codes / Color.downgrade (proved) "
+                "and by the bounded C03 oracle; the write to the _ansi cache is not modelled here (see wf_style / ansi_cache_ok)",
+    )
+    # Style.render: the text verbatim when there is nothing to say (empty text, colour disabled: no escape sequence at all);
+    # otherwise ESC[<sgr>m text ESC[0m - the styled run is closed by a reset, so no style leaks onto what follows - wrapped in an
+    # OSC 8 open/close pair only when the style carries a link (and the terminal is not a legacy Windows console)
     R.contract(
         "rich.style", "Style.render", serves=["C15", "C03"],
         params={"self": "Style", "text": "str", "color_system": "Optional[int]", "legacy_windows": "bool"}, returns="str",
-        ensures=["implies(len(text) == 0 or color_system is None, seq_eq(result, text))"],
-        trusted="Style.render: only the pass-through cases are stated (empty text / no colour system give the text verbatim); the SGR framing is covered by the bounded C03 oracle",
-        pure=True,
+        ensures=[
+            "implies(len(text) == 0 or color_system is None, seq_eq(result, text))",
+            "len(result) >= len(text)",
+            "implies(len(text) > 0 and color_system is not None and (not self._link or legacy_windows) and len(sgr_of(self, color_system)) == 0, seq_eq(result, text))",
+            "implies(len(text) > 0 and color_system is not None and (not self._link or legacy_windows) and len(sgr_of(self, color_system)) > 0,"
+            " seq_eq(result, '\\x1b[' + sgr_of(self, color_system) + 'm' + text + '\\x1b[0m'))",
+            # with a link: OSC 8 ; id=... ; uri ST  <styled run>  OSC 8 ; ; ST
+            "implies(len(text) > 0 and color_system is not None and (not not self._link) and not legacy_windows, len(result) >= len(text) + 14"
+            " and result[0] == '\\x1b' and result[1] == ']' and result[2] == '8' and result[3] == ';'"
+            " and result[len(result) - 1] == '\\\\' and result[len(result) - 2] == '\\x1b')",
+        ],
+        pure=True, native=False,
     )
     R.contract(
         "rich.console", "Console.export_text", serves=["C15"],
